@@ -205,6 +205,9 @@ class Harness:
     def canon(self, w):
         return (tuple(w.acc[self.target]), json.dumps(self.observe_all(w), sort_keys=True))
 
+    def refstate(self, w):
+        return tuple((k, tuple(v)) for k, v in sorted(w.acc.items()))
+
     def outcome(self, w):
         return (tuple(w.acc[self.target]), w.last)
 
